@@ -4,7 +4,7 @@ SPECIFICATION Spec
 CONSTANTS
   Kinds = {"acl", "config", "fed"}
   Ids = {1, 2, 3}
-  Cs = {1, 2}
+  Cs = {1, 7}
   LegacyCs = {1}
   Mis = {1, 2}
   Lasts = {0, 1}
